@@ -32,16 +32,39 @@ macro_rules! int_tag {
     )*};
 }
 int_tag!(u8, u16, u32, u64, usize, i8, i16, i32, i64, isize);
+// Float tags: plain small values for most salts; for salt % 7 == 5 values spread over
+// ~120 (f32) / ~1000 (f64) binary orders of magnitude, and for salt % 7 == 6 additionally
+// the special values +-inf, MAX, MIN_POSITIVE in the first slots.  Moving a component
+// must move it bit for bit whatever its size; anything that computes with the
+// components (an arithmetic "swap", a conversion through another type) shows here.
 impl Tag for f32 {
     const NAME: &'static str = "f32";
     fn tag(i: usize, salt: u64) -> f32 {
-        (i as f32 + 1.0) * 1.5 + (salt % 7) as f32 * 64.0
+        match salt % 7 {
+            5 | 6 => {
+                if salt % 7 == 6 && i < 4 {
+                    return [f32::INFINITY, f32::NEG_INFINITY, f32::MAX, f32::MIN_POSITIVE][i];
+                }
+                let e = ((i * 37 + 11) % 120) as i32 - 60;
+                (i as f32 + 1.0) * 1.5 * (2.0f32).powi(e) * if i % 3 == 1 { -1.0 } else { 1.0 }
+            }
+            k => (i as f32 + 1.0) * 1.5 + k as f32 * 64.0,
+        }
     }
 }
 impl Tag for f64 {
     const NAME: &'static str = "f64";
     fn tag(i: usize, salt: u64) -> f64 {
-        (i as f64 + 1.0) * 1.25 + (salt % 7) as f64 * 64.0
+        match salt % 7 {
+            5 | 6 => {
+                if salt % 7 == 6 && i < 4 {
+                    return [f64::INFINITY, f64::NEG_INFINITY, f64::MAX, f64::MIN_POSITIVE][i];
+                }
+                let e = ((i * 97 + 31) % 1000) as i32 - 500;
+                (i as f64 + 1.0) * 1.25 * (2.0f64).powi(e) * if i % 3 == 1 { -1.0 } else { 1.0 }
+            }
+            k => (i as f64 + 1.0) * 1.25 + k as f64 * 64.0,
+        }
     }
 }
 impl Tag for bool {
@@ -551,6 +574,72 @@ fn mat_ptr<T: Tag + cgmath::BaseFloat>(rec: &mut Rec, salt: u64) {
     one!(Matrix2, 4);
     one!(Matrix3, 9);
     one!(Matrix4, 16);
+    // exchanges and transposition move components bit for bit (element (c, r) = flat[c*n + r])
+    macro_rules! moves {
+        ($M:ident, $n:expr, $nn:expr) => {{
+            const N: usize = $n;
+            let f: [T; $nn] = std::array::from_fn(|i| t[i]);
+            let m0: $M<T> = *<&$M<T>>::from(&f);
+            for a in 0..$nn {
+                for b in 0..$nn {
+                    let mut w = m0;
+                    w.swap_elements((a / N, a % N), (b / N, b % N));
+                    let mut e = f;
+                    e.swap(a, b);
+                    let r: &[T; $nn] = w.as_ref();
+                    rec.eq("Matrix::swap_elements((ca,ra),(cb,rb))", r.to_vec(), e.to_vec());
+                }
+            }
+            for a in 0..N {
+                for b in 0..N {
+                    let mut w = m0;
+                    w.swap_columns(a, b);
+                    let mut e = f;
+                    for r in 0..N {
+                        e.swap(a * N + r, b * N + r);
+                    }
+                    let r: &[T; $nn] = w.as_ref();
+                    rec.eq("Matrix::swap_columns", r.to_vec(), e.to_vec());
+                    let mut w = m0;
+                    w.swap_rows(a, b);
+                    let mut e = f;
+                    for c in 0..N {
+                        e.swap(c * N + a, c * N + b);
+                    }
+                    let r: &[T; $nn] = w.as_ref();
+                    rec.eq("Matrix::swap_rows", r.to_vec(), e.to_vec());
+                }
+            }
+            let mut e = f;
+            for c in 0..N {
+                for r in 0..N {
+                    e[c * N + r] = f[r * N + c];
+                }
+            }
+            let mut w = m0;
+            w.transpose_self();
+            let r: &[T; $nn] = w.as_ref();
+            rec.eq("SquareMatrix::transpose_self", r.to_vec(), e.to_vec());
+            let tr = m0.transpose();
+            let r: &[T; $nn] = tr.as_ref();
+            rec.eq("Matrix::transpose", r.to_vec(), e.to_vec());
+            for c in 0..N {
+                let col = m0[(c + 1) % N];
+                let mut w = m0;
+                let old = w.replace_col(c, col);
+                rec.ok("Matrix::replace_col returns the old column", old == m0[c]);
+                rec.ok("Matrix::replace_col installs the new column", w[c] == col);
+                for k in 0..N {
+                    if k != c {
+                        rec.ok("Matrix::replace_col leaves the other columns", w[k] == m0[k]);
+                    }
+                }
+            }
+        }};
+    }
+    moves!(Matrix2, 2, 4);
+    moves!(Matrix3, 3, 9);
+    moves!(Matrix4, 4, 16);
 }
 
 // ---------------------------------------------------------------- quaternion (numeric element types)
@@ -670,7 +759,8 @@ pub fn native(cfg: &RunCfg, extra: &mut Extra) {
             let mut salts = std::collections::HashSet::new();
             for i in 0..rounds {
                 let mut rng = Rng::for_case(cfg.seed, "c16_native", i);
-                let salt = rng.next();
+                // every residue mod 7 (the float tag families) comes up in turn
+                let salt = (rng.next() / 7) * 7 + (i % 7);
                 $f::<$T>(&mut rec, salt);
                 $( $g::<$T>(&mut rec, salt); )?
                 // distinct tag sets actually used
